@@ -100,6 +100,12 @@ class SigmaNull(SigmaType):
     def __eq__(self, other: Any) -> bool:
         return isinstance(other, self.__class__)
 
+    def __repr__(self) -> str:
+        return "SigmaNull()"
+
+    def __str__(self) -> str:
+        return "null"
+
 
 @dataclass
 class SigmaExists(SigmaType):
